@@ -13,12 +13,14 @@ ASAN_OBJS = $(addprefix $(B)/asan/,$(addsuffix .o,$(GENERIC) $(addprefix pol_,$(
 
 TSAN_FLAGS = $(COMMON) -O1 -gline-tables-only -fno-omit-frame-pointer -fsanitize=thread -DYS_NO_NEW_REPLACEMENT
 TSAN_POLS = rel dbg ind map cind sdbg thr vec
-TSAN_GENERIC = common plan exec gen sched atomyield
+TSAN_GENERIC = common plan exec gen sched atomyield twsched
 WRAPPED = $(foreach n,8 32 64,$(foreach op,load store exchange fetch_add fetch_sub compare_exchange_strong compare_exchange_weak,__tsan_atomic$(n)_$(op))) __cxa_guard_acquire __cxa_guard_release __cxa_guard_abort
 WRAP_FLAGS = $(foreach s,$(WRAPPED),-Wl,--wrap=$(s))
 TSAN_OBJS = $(addprefix $(B)/tsan/,$(addsuffix .o,$(TSAN_GENERIC) $(addprefix pol_,$(TSAN_POLS))))
 
 all: $(B)/yosim.asan $(B)/yosched.tsan
+
+$(B)/tsan/twsched.o: sim/tw.cpp
 
 $(B)/tsan/%.o: sim/%.cpp $(HDRS)
 	@mkdir -p $(B)/tsan
